@@ -72,6 +72,10 @@ var zzTemplates = []zzTmpl{
 	{name: "any", src: "v:any\nv = a\nx := v.(num)\ny := b\n", unsupported: true},
 	{name: "anyarray", src: "arr := [a \"s\"]\ny := b\n", unsupported: true},
 	{name: "typedempty", src: "arr:[]num\narr = arr + [a b]\n", unsupported: true},
+	// breaks of an outer loop before, between and after inner loops that have breaks of their own
+	{name: "breakouterwhile", src: "n := 0\nwhile true\n    n = n + 1\n    if n > a\n        break\n    end\n    for j := range 3\n        if j == 1\n            break\n        end\n        n = n + 10\n    end\n    if n > 50\n        break\n    end\n    while true\n        n = n + 100\n        break\n    end\n    if n > b * 100\n        break\n    end\nend\nm := n\n", assume: "small"},
+	{name: "breakouterfor", src: "n := 0\nfor k := range 6\n    if k == a\n        break\n    end\n    i := 0\n    while i < 3\n        i = i + 1\n        if i == b\n            break\n        end\n        for q := range 2\n            if q == 1\n                break\n            end\n            n = n + 1\n        end\n        if i + k > 5\n            break\n        end\n    end\n    n = n + 10\n    if n > 45\n        break\n    end\nend\nm := n\n", assume: "small"},
+	{name: "breaksiblings", src: "n := 0\nfor k := range 3\n    for p := range 3\n        if p > a\n            break\n        end\n        n = n + 1\n    end\n    for q := range 3\n        if q > b\n            break\n        end\n        n = n + 10\n    end\n    if k == 1\n        break\n    end\nend\n", assume: "small"},
 }
 
 type zzEvalPlat struct {
